@@ -30,7 +30,7 @@ impl Scenario for C18 {
         "C18"
     }
     fn rule(&self) -> String {
-        "Seeded sessions: 1-4 publisher threads (20-150 messages each, bodies up to 2 frames) plus the owner opening a channel and publishing on it while throttled; tuning drawn from mem_channel_bound in {1,2,16}, high-water in {1000, 8000, 64000}, low-water in {0, high/2}; 1-3 write stalls of 5-60 ms of simulated time during which the transport grants no budget, short writes in between. Oracle (a), only under I/O-atomic schedules (the I/O thread is not preempted inside one poll batch, because the code checks the high-water mark between batches): at every millisecond of every stall, bytes accepted from completed publish calls minus bytes written <= high_water + 2*N*(bound+1)*frame_max. Oracle (b), under all schedules: after the last stall every publisher finishes (else the hang detector names the lost wake-up) and the wire carries every accepted message exactly once, per channel in order (C01's wire oracle). Non-trivial = the throttle had to engage: total volume > 2x the bound of (a) and the stall outlasted the publishers' progress; distinct = schedule trace hash.".to_string()
+        "Seeded sessions: 1-4 publisher threads (20-150 messages each, bodies up to 2 frames) plus the owner opening a channel and publishing on it while throttled; tuning drawn from mem_channel_bound in {0,1,2,16}, high-water in {1000, 8000, 64000}, low-water in {0, high/2}; 1-3 write stalls of 5-60 ms of simulated time during which the transport grants no budget, short writes in between. Oracle (a), only under I/O-atomic schedules (the I/O thread is not preempted inside one poll batch, because the code checks the high-water mark between batches): at every millisecond of every stall, bytes accepted from completed publish calls minus bytes written <= high_water + 2*N*(bound+1)*frame_max. Oracle (b), under all schedules: after the last stall every publisher finishes (else the hang detector names the lost wake-up) and the wire carries every accepted message exactly once, per channel in order (C01's wire oracle). Non-trivial = the throttle had to engage: total volume > 2x the bound of (a) and the stall outlasted the publishers' progress; distinct = schedule trace hash.".to_string()
     }
     fn assumptions(&self) -> Vec<String> {
         vec!["the numeric bound is asserted only under I/O-atomic schedules; under free schedules publishers can refill a channel while the I/O thread drains it, which the code does not bound (DESIGN.md §7 C18)".into()]
@@ -42,7 +42,7 @@ impl Scenario for C18 {
         let mut cs = spec.stream();
         let frame_max = 4096usize;
         let n_pub = 1 + cs.choose("n_publishers", 4) as usize;
-        let bound = *pick(&mut cs, "bound", &[1usize, 2, 16]);
+        let bound = *pick(&mut cs, "bound", &[1usize, 2, 16, 0]);
         let high = *pick(&mut cs, "high", &[1000usize, 8000, 64000]);
         let low = if cs.choose("low_half", 2) == 1 { high / 2 } else { 0 };
         let io_atomic = cs.choose("io_atomic", 2) == 0;
